@@ -53,6 +53,12 @@ CHECKS = {
         "values (symbolic); value and read order must equal Python's; invalid strings must be rejected at instantiation.",
         "DESIGN.md section 4 C08",
     ),
+    "C09": sx(
+        "the class statement itself executed symbolically (state flags and strict_states are z3 booleans); verdict compared with an independent transitive-closure oracle",
+        "All small directed multigraphs (bounded) x all flag assignments: the metaclass checks fork on symbolic flags and every path's accept/warn/raise "
+        "verdict must equal the oracle's.",
+        "DESIGN.md section 4 C09",
+    ),
     "C14": sx(
         "result rule judged on symbolic return values incl. awkward kinds",
         "All bounded populations of before/on callbacks x transition kinds x engines with symbolic return values; 0->None, 1->unwrapped, else list.",
